@@ -40,6 +40,9 @@ def main():
     assert rc == 0, out
     try:
         rc, out = sh(f"git -C {wt} apply {src / 'patch.diff'}")
+        if rc != 0:  # /repo moved on since the change was written: try a 3-way merge of the patch
+            rc, out = sh(f"git -C {wt} apply --3way {src / 'patch.diff'}")
+            res["apply_3way"] = True
         res["apply_rc"] = rc
         if rc != 0:
             res["apply_out"] = out[-500:]
